@@ -78,6 +78,7 @@ func checkC11(ctx *Ctx, r *Report) {
 	c11ThirdRound(ctx, r)
 	c11FourthRound(ctx, r)
 	c11FifthRound(ctx, r)
+	c11SixthRound(ctx, r)
 	c02PythonMethodNamesEscaped(ctx, r)
 	// Python keeps an empty optional collection (`is not None`), Go's bare `omitempty` drops it
 	c01OmitEmptyOnCollections(ctx, r)
@@ -3069,4 +3070,207 @@ func c01SixthRound(ctx *Ctx, r *Report) {
 	}
 	r.Count("hunted clauses of the round trip (6th round)", n)
 	r.Floor("hunted clauses of the round trip (6th round)", 3)
+}
+
+// c11SixthRound — fifth hunt:
+//   - the Go, Python and Java chains hold the pass ObjectIdentifiers, configured with the function that names an
+//     object in that language: two objects that end up with one identifier (`pet_kind`, `PetKind`) are an error — in
+//     Python the second `class PetKind:` silently took the place of the first and from_json lost data;
+//   - the locals of the generated Python methods and the aliases of the imported models modules are kept apart: the
+//     alias sanitizer of the import map consults a function that lists the names the methods use — every name that
+//     generateFromJSONMethod / fromJSONForTypeRec / the to_json generator write as a parameter or a variable is in it;
+//   - from_json puts an explicit null back for a nullable constant (`kind: "a" | null`): the list of fields whose null
+//     is restored after `cls(**args)` takes concrete scalars and constant references that are nullable.
+func c11SixthRound(ctx *Ctx, r *Report) {
+	n := 0
+	// (a)
+	chains := languageChains(ctx)
+	for _, lang := range []string{"golang", "python", "java"} {
+		chain, ok := chains[lang]
+		if !ok {
+			r.Undecided("anchor lost: CompilerPasses of %s", lang)
+			continue
+		}
+		has := false
+		for _, name := range chain {
+			if name == "ObjectIdentifiers" {
+				has = true
+			}
+		}
+		n++
+		r.Check(has, "chains/object-identifiers", lang+" chain checks the identifiers of objects", token.NoPos, "ObjectIdentifiers is part of the chain",
+			"the "+lang+" chain does not check that the objects of a schema keep distinct identifiers: `pet_kind: {a: string}` and `PetKind: {b: int}` are both `PetKind` — Python declares the class twice, the second takes the place of the first and {\"x\":{\"a\":\"s\"}} comes back as {\"x\":{\"b\":0}}; Go: PetKind redeclared")
+	}
+	ctx.AllFuncDecls(func(p *packages.Package, fd *ast.FuncDecl, obj *types.Func) {
+		if fd.Recv == nil || fd.Body == nil || obj.Name() != "CompilerPasses" || !strings.HasPrefix(p.PkgPath, modulePath+"/internal/jennies/") {
+			return
+		}
+		ast.Inspect(fd.Body, func(m ast.Node) bool {
+			cl, ok := m.(*ast.CompositeLit)
+			if !ok || namedName(p.TypesInfo.TypeOf(cl)) != "ObjectIdentifiers" {
+				return true
+			}
+			configured := false
+			for _, el := range cl.Elts {
+				if kv, ok := el.(*ast.KeyValueExpr); ok && exprString(kv.Key) == "Identifier" {
+					if id, ok := ast.Unparen(kv.Value).(*ast.Ident); !ok || id.Name != "nil" {
+						configured = true
+					}
+				}
+			}
+			n++
+			r.Check(configured, "chains/object-identifiers", ctx.FuncName(obj)+" configures the check", cl.Pos(), "the pass is given the function that names objects in that language",
+				ctx.FuncName(obj)+" adds ObjectIdentifiers without Identifier: the pass checks nothing")
+			return true
+		})
+	})
+	// the pass fails on a duplicate
+	if fn := ctx.LookupMethod("internal/ast/compiler", "ObjectIdentifiers", "Process"); fn == nil {
+		r.Check(false, "chains/object-identifiers", "compiler.ObjectIdentifiers exists", token.NoPos, "", "the pass that checks the identifiers of objects is gone")
+	} else if fd, p := ctx.DeclOf(fn); fd != nil {
+		info := p.TypesInfo
+		fails := false
+		ast.Inspect(fd.Body, func(m ast.Node) bool {
+			is, ok := m.(*ast.IfStmt)
+			if !ok || len(is.Body.List) == 0 {
+				return true
+			}
+			as, ok := is.Init.(*ast.AssignStmt)
+			if !ok || len(as.Rhs) != 1 {
+				return true
+			}
+			if _, isIndex := ast.Unparen(as.Rhs[0]).(*ast.IndexExpr); !isIndex {
+				return true
+			}
+			if rs, ok := is.Body.List[len(is.Body.List)-1].(*ast.ReturnStmt); ok && len(rs.Results) == 2 && !isNilIdent(info, rs.Results[1]) {
+				fails = true
+			}
+			return true
+		})
+		n++
+		r.Check(fails, "chains/object-identifiers", "compiler.ObjectIdentifiers fails on an identifier given twice", fd.Pos(), "a lookup in the table of identifiers leaves with an error", "ObjectIdentifiers no longer fails when two objects get one identifier")
+	}
+	// (b)
+	pp := ctx.Pkg("internal/jennies/python")
+	if pp == nil {
+		r.Undecided("anchor lost: internal/jennies/python")
+		return
+	}
+	info := pp.TypesInfo
+	listed := map[string]bool{}
+	var lister *types.Func
+	if fn := ctx.LookupFunc("internal/jennies/python", "NewImportMap"); fn != nil {
+		if fd, _ := ctx.DeclOf(fn); fd != nil {
+			ast.Inspect(fd.Body, func(m ast.Node) bool {
+				c, ok := m.(*ast.CallExpr)
+				if !ok {
+					return true
+				}
+				if f := callee(info, c); f != nil && strings.HasPrefix(f.Name(), "WithAliasSanitizer") && len(c.Args) == 1 {
+					ast.Inspect(c.Args[0], func(k ast.Node) bool {
+						if kc, ok := k.(*ast.CallExpr); ok {
+							if kf := callee(info, kc); kf != nil && kf.Pkg() == pp.Types {
+								lister = kf
+							}
+						}
+						return true
+					})
+				}
+				return true
+			})
+		}
+	}
+	if lister != nil {
+		if lfd, _ := ctx.DeclOf(lister); lfd != nil {
+			ast.Inspect(lfd.Body, func(m ast.Node) bool {
+				if e, ok := m.(ast.Expr); ok {
+					if tv, ok := info.Types[e]; ok && tv.Value != nil && tv.Value.Kind() == constant.String {
+						listed[constant.StringVal(tv.Value)] = true
+					}
+				}
+				return true
+			})
+		}
+	}
+	// the names the generated methods use: parameters and variables written in the format strings of the generators
+	used := map[string]bool{}
+	sig := regexp.MustCompile(`def \w+\(([^)]*)\)`)
+	assign := regexp.MustCompile(`(?m)^\s*([a-z_][a-z0-9_]*)(?::[^=\n]+)? = `)
+	loop := regexp.MustCompile(`for ([a-z_][a-z0-9_]*) in`)
+	for _, name := range []string{"generateFromJSONMethod", "fromJSONForTypeRec", "generateToJSONMethod"} {
+		fd := c12Method(pp, name)
+		if fd == nil {
+			continue
+		}
+		ast.Inspect(fd.Body, func(m ast.Node) bool {
+			bl, ok := m.(*ast.BasicLit)
+			if !ok || bl.Kind != token.STRING {
+				return true
+			}
+			tv, ok := info.Types[bl]
+			if !ok || tv.Value == nil {
+				return true
+			}
+			text := constant.StringVal(tv.Value)
+			for _, mm := range sig.FindAllStringSubmatch(text, -1) {
+				for _, prm := range strings.Split(mm[1], ",") {
+					prm = strings.TrimSpace(strings.SplitN(prm, ":", 2)[0])
+					if prm != "" && !strings.ContainsAny(prm, "%{") {
+						used[prm] = true
+					}
+				}
+			}
+			for _, mm := range assign.FindAllStringSubmatch(text, -1) {
+				used[mm[1]] = true
+			}
+			for _, mm := range loop.FindAllStringSubmatch(text, -1) {
+				used[mm[1]] = true
+			}
+			// variable names given as plain literals ("item", "key")
+			if text == "item" || text == "key" {
+				used[text] = true
+			}
+			return true
+		})
+	}
+	var missing []string
+	for name := range used {
+		if !listed[name] {
+			missing = append(missing, name)
+		}
+	}
+	sort.Strings(missing)
+	n++
+	r.Check(lister != nil && len(used) >= 5 && len(missing) == 0, "kinds/python-module-aliases-spare-locals", "python import aliases spare the names the generated methods use", token.NoPos, fmt.Sprintf("the alias sanitizer consults a list that holds the %d names written by the method generators", len(used)),
+		fmt.Sprintf("a models module is imported under the bare name of its package, and the generated methods use %v as parameters or variables without the alias sanitizer knowing them: package `data` with `t: data.Thing` gives `args[\"t\"] = data.Thing.from_json(data[\"t\"])` inside `def from_json(cls, data)` — AttributeError: 'dict' object has no attribute 'Thing', on every document", missing))
+	// (c)
+	if fd := c12Method(pp, "generateFromJSONMethod"); fd == nil {
+		r.Undecided("anchor lost: python.RawTypes.generateFromJSONMethod")
+	} else {
+		restores := false
+		ast.Inspect(fd.Body, func(m ast.Node) bool {
+			is, ok := m.(*ast.IfStmt)
+			if !ok {
+				return true
+			}
+			cond := exprString(is.Cond)
+			if !strings.Contains(cond, ".Nullable") || !(strings.Contains(cond, "IsConcreteScalar()") && strings.Contains(cond, "IsConstantRef()")) || strings.Contains(cond, "!field.Type.IsConcreteScalar()") {
+				return true
+			}
+			ast.Inspect(is.Body, func(k ast.Node) bool {
+				if c, ok := k.(*ast.CallExpr); ok {
+					if id, ok := ast.Unparen(c.Fun).(*ast.Ident); ok && id.Name == "append" && len(c.Args) > 0 && strings.Contains(exprString(c.Args[0]), "ullable") {
+						restores = true
+					}
+				}
+				return true
+			})
+			return true
+		})
+		n++
+		r.Check(restores, "flow/python-explicit-null-kept", "python.generateFromJSONMethod keeps the null of a nullable constant", fd.Pos(), "nullable constants join the fields whose explicit null is put back after the constructor",
+			"from_json skips constants (the constructor sets them) and never looks at the document: `kind: \"a\" | null` with {\"kind\":null} comes back as {\"kind\":\"a\"} while Go keeps the null")
+	}
+	r.Count("hunted clauses of the Python wire format (6th round)", n)
+	r.Floor("hunted clauses of the Python wire format (6th round)", 8)
 }
